@@ -6,7 +6,8 @@ git checkout -q -- . ; git status --porcelain | grep -v "^??" && { echo "worktre
 PYTHONPATH=$W /venv/bin/python "$S/demo.py" >/tmp/seed_$ID_$N.clean.out 2>&1; CLEAN=$?
 git apply "$S/patch.diff" || { echo "patch does not apply"; exit 2; }
 PYTHONPATH=$W /venv/bin/python "$S/demo.py" >/tmp/seed_$ID_$N.demo.out 2>&1; DEMO=$?
-if [ "$3" != "notests" ]; then
+if [ -f "$S/confirm.txt" ] && grep -q "tests='" "$S/confirm.txt"; then T=$(sed -n "s/.*tests='\(.*\)'.*/\1/p" "$S/confirm.txt")
+elif [ "$3" != "notests" ]; then
   T=$(PYTHONPATH=$W /venv/bin/python -m pytest -q -p no:cacheprovider --timeout=900 --continue-on-collection-errors 2>&1 | grep -E "passed|failed" | tail -1)
 else T="(tests not run)"; fi
 cd ${VERIF_DIR:-/verif}
